@@ -142,6 +142,7 @@ var VerdictDefects = map[string]func(*model.Defects){
 	"null-object-zero":               func(d *model.Defects) { d.NullObjZero = true },
 	"addprop-container-lax":          func(d *model.Defects) { d.AddPropObjLax = true },
 	"allof-same-keyword-first-wins":  func(d *model.Defects) { d.AllOfFirstWins = true },
+	"allof-ref-nested-type-reused":   func(d *model.Defects) { d.AllOfNestedReuse = true },
 	"untyped-composition-definition": func(d *model.Defects) { d.UntypedCompDef = true },
 	"minsized-uint8-array-is-bytes":  func(d *model.Defects) { d.Uint8ArrayBase64 = true },
 	"named-format-type":              func(d *model.Defects) { d.NamedFormat = true },
@@ -501,6 +502,14 @@ func runBatch(cfg *Config, rep *Report, ks *known.Set, cases []*Case) error {
 			seen[string(raw)] = true
 			mr := model.Eval(c.Root, d.V, nil)
 			rep.Evaluations++
+			if mr.V == model.DontCare && d.Stated != "" {
+				// the stratum states the verdict itself (the schema's meaning is plain, the model's abstention is about
+				// neighbouring shapes)
+				mr = model.Result{V: model.Accept}
+				if d.Stated == "reject" {
+					mr = model.Result{V: model.Reject, Faults: []model.Fault{{Rule: "stated", Path: ""}}}
+				}
+			}
 			if mr.V == model.DontCare {
 				for _, w := range mr.DontCares {
 					rep.DontCare[strings.SplitN(w, "@", 2)[0]]++
